@@ -194,7 +194,11 @@ def rewrite(d, programs, per_program, chain, avoid, jobs=8, kinds=None, exhausti
                 t[f] += kc[f]
             for why, n in kc["discard_reasons"].items():
                 t["discard_reasons"][why] = t["discard_reasons"].get(why, 0) + n
+            BROKE_SYNTAX.extend(kc.get("broke_syntax", []))
     return steps, census
+
+
+BROKE_SYNTAX = []     # Parenthesise / WrapInBlock instances whose result does not parse (filled by rewrite())
 
 
 def exhaustive_pass(d, programs, tier, avoid):
@@ -484,6 +488,21 @@ def run(tier):
     log(f"[c13] programs compiled and run; {time.time()-t0:.0f}s")
     fails = judge(d, programs, hists, stats, kf)
     log(f"[c13] judged; {time.time()-t0:.0f}s")
+    # wrapping a complete expression in parentheses or a block can never make a parseable program unparseable:
+    # such an instance is a verdict flip the structural validation would otherwise discard silently
+    seen = set()
+    for b in BROKE_SYNTAX:
+        key = (b["kind"], b["site"])
+        if key in seen or len(seen) >= 5:
+            continue
+        seen.add(key)
+        changed = {m: t for m, t in b["after"].items() if b["before"].get(m) != t}
+        path = save_replay(PID, "wrap-breaks-syntax", {"kind": b["kind"], "site": b["site"], "before": {m: b["before"].get(m) for m in changed},
+                                                        "after": changed},
+                           "the rewritten program parses (the original does)", {"syntax_errors_after": True})
+        log(f"[c13] {b['kind']} at {b['site']} makes the program unparseable")
+        report_violation(PID, path)
+        fails += 1
     known_witnesses(d, kf, stats)
     # drift: number of diagnostics of rejected programs
     drift = tlc_chunks(d, [h for h in hists if len(h["rows"]) > 1], "RewritesTraceStrict.cfg", "s", {})
@@ -601,7 +620,18 @@ def run(tier):
 
 
 def replay(path, quiet=False):
-    case = json.load(open(path))["case"]
+    whole = json.load(open(path))
+    if whole.get("kind") == "wrap-breaks-syntax":
+        # the rewritten modules must parse: run the front end on them (any module of the program that changed)
+        c = whole["case"]
+        d = outdir(PID)
+        recs = pc.run_programs(d, "replay-wrap", [{"origin": "after", "entry": sorted(c["after"])[0], "sources": c["after"]}], [0], jobs=1)
+        rendered = recs[0].get("rendered", "")
+        bad = "Expected:" in rendered or "Expecting:" in rendered or "Invalid token" in rendered or recs[0].get("front") == "crashed"
+        if bad:
+            report_violation(PID, path)
+        return 1 if bad else 0
+    case = whole["case"]
     d = outdir(PID)
     p = dict(case["program"], with_std=case.get("with_std", True))
     progs = [dict(p)]
